@@ -47,12 +47,12 @@ type Node struct {
 
 // DocOpts controls NoisyDoc.
 type DocOpts struct {
-	Elements []string                                       // element names to draw from
-	Attrs    func(r *rand.Rand, el string) [][2]string      // attribute list for an element (decoded values)
-	Text     func(r *rand.Rand) string                      // text node content (decoded)
+	Elements []string                                  // element names to draw from
+	Attrs    func(r *rand.Rand, el string) [][2]string // attribute list for an element (decoded values)
+	Text     func(r *rand.Rand) string                 // text node content (decoded)
 	MaxDepth int
 	MaxKids  int
-	Noise    int // 0 = canonical serialisation, 1..3 = increasingly hostile
+	Noise    int  // 0 = canonical serialisation, 1..3 = increasingly hostile
 	Extras   bool // comments, doctypes, CDATA, PIs, stray end tags
 }
 
